@@ -1171,6 +1171,7 @@ def c06_params(rng):
         "rule": rng.choice(["uniform", "skill", "upset", "upset", "tie", "tie"]),
         "shape": rng.choice([[2, 1], [2, 2], [4, 3], [8, 8], [3, 1], [6, 2], [7, 1], [5, 3], [8, 2]]),
         "p_restart": rng.choice([0.0, 0.02, 0.1]),
+        "p_malformed": rng.choice([0.0, 0.03, 0.1]),
     }
 
 
@@ -1223,6 +1224,12 @@ class SigmaDriver:
         if frng.random() < p["p_restart"]:
             scope = frng.sample(names, frng.randint(1, len(names)))
             return {"op": "RESTART", "scope": scope, "paths": [frng.choice(["rating", "create_rating", "deepcopy"]) for _ in scope]}
+        if frng.random() < p.get("p_malformed", 0.0):
+            # a client submits a malformed report; the service catches the TypeError/ValueError
+            # and carries on with the very same rating objects
+            op = gen_malformed_op(frng, ctx, names, self.league, calls=("rate",))
+            if op:
+                return op
         return gen_rate_op(rng, ctx, self.league, names, p["opt_rate"], shape=tuple(p["shape"]), maker=p["maker"], rule=p["rule"])
 
     def run(self):
@@ -1246,6 +1253,11 @@ class SigmaDriver:
                 ctx.fault("restart_partial")
             elif kind == "RATE":
                 self.exec_rate(op)
+            elif kind == "MALFORMED":
+                self.league.ensure(flat(op["teams"]))
+                st, val, _ = malformed_call(ctx, self.league, op)
+                ctx.fault("malformed")
+                ctx.log("MALFORMED", st if st == "ok" else type(val).__name__)
             else:
                 raise HarnessError("unknown op %r" % kind)
 
@@ -1279,6 +1291,15 @@ class SigmaDriver:
                 tr = self.traj.get(n)
                 if tr is None:
                     tr = self.traj[n] = [s0 * s0, 0.0, s0, 0]
+                else:
+                    # game to game along the trajectory: measured from what the player's
+                    # PREVIOUS game left (not from what the objects hold now - nothing but a
+                    # game, a restart from the store or a re-seed touches them in between)
+                    prev = tr[2]
+                    if s1 > math.sqrt(prev * prev + tau * tau) * (1 + 1e-14):
+                        ctx.violation("C06/trajectory_bound:growth_between_consecutive_games", dict(where, name=n, after_previous_game=enc(prev), prior_now=enc(s0), post=enc(s1), tau=enc(tau)))
+                    if limit and s1 > prev:
+                        ctx.violation("C06/trajectory_bound:rose_between_consecutive_games_under_limit", dict(where, name=n, after_previous_game=enc(prev), prior_now=enc(s0), post=enc(s1)))
                 tr[1] += tau * tau
                 tr[3] += 1
                 # rounding slack grows with the length of the trajectory: every game rounds
